@@ -15,7 +15,9 @@ LEVEL = "model_checking"
 
 BOUNDS = {"quick": (3, 4), "thorough": (4, 6)}  # (max progression length, max index)
 NKEYS = (2, 1)  # data keys of detector 1 / detector 2
-VARIANTS = [(named, a) for named in (1, 0) for a in (0, 1)]  # collect(name='main') or collect() ; sync or async device methods
+# named: 1 = collect(name='main'), 0 = collect() with the stream inferred, 2 = the same detectors are ALSO declared into a second
+# stream 'aux' (declared first, never collected into) and every collect names 'main';  a: sync or async device methods
+VARIANTS = [(named, a) for named in (1, 0, 2) for a in (0, 1)]
 BATCH = 32
 ITEM = 256
 STREAM = "main"
@@ -23,7 +25,7 @@ STREAM = "main"
 RULE = (
     "X1 at 0 deviations: 1 detector with every non-decreasing get_index() progression of length 1..3 over {0..4} (thorough: length 1..4 over {0..6}), "
     "and 2 detectors (2 and 1 data keys) with every PAIR of such progressions of equal length, a collect of all detectors after every step, on a stream "
-    "declared with declare_stream(collect=True); x {collect names the stream, stream inferred from the declaration} x {sync, async device methods}; "
+    "declared with declare_stream(collect=True); x {collect names the stream, stream inferred from the declaration, the same detectors also declared into a second stream that is never collected into} x {sync, async device methods}; "
     "oracle on the documents of each run: no collect is rejected; per stream_resource (= per data key) the stream_datum indices tile [0, n) contiguously "
     "from 0 and seq_nums == indices + 1; after the k-th collect EVERY data key ends at min over detectors of their k-th index; every stream_datum names the "
     "declared descriptor; stop.num_events[stream] == the final minimum index; "
@@ -161,7 +163,10 @@ def _scenario_class():
             def plan():
                 for ci, (progs, named, _a) in enumerate(cases):
                     dets = d[ci]
-                    msgs = [("open", None, Msg("open_run")), ("declare", None, Msg("declare_stream", None, *dets, name=STREAM, collect=True))]
+                    msgs = [("open", None, Msg("open_run"))]
+                    if named == 2:
+                        msgs.append(("declare_aux", None, Msg("declare_stream", None, *dets, name="aux", collect=True)))
+                    msgs.append(("declare", None, Msg("declare_stream", None, *dets, name=STREAM, collect=True)))
                     for k in range(len(progs[0])):
                         kw = {"name": STREAM} if named else {}
                         msgs.append(("collect", k, Msg("collect", *dets, **kw)))
@@ -217,7 +222,7 @@ def _v(rule, detail, sig_tail):
 
 def _shape(case):
     progs, named, a = case
-    return f"dets={len(progs)}|{'named' if named else 'inferred'}|{'async' if a else 'sync'}"
+    return f"dets={len(progs)}|{('named', 'two-streams-named')[named - 1] if named else 'inferred'}|{'async' if a else 'sync'}"
 
 
 def judge(case, entries, docs, docs_of):
@@ -241,6 +246,10 @@ def judge(case, entries, docs, docs_of):
             return _v("rejected", f"{label}: {part}{'' if k is None else ' #' + str(k)} raised {type(value).__name__}: {str(value)[:200]}", f"{where}|{type(value).__name__}|{shape}"), facts
         if part == "open":
             run_uid = next((doc["uid"] for n, doc in mydocs if n == "start"), None)
+        elif part == "declare_aux":
+            ds = [doc for n, doc in mydocs if n == "descriptor"]
+            if len(ds) != 1 or ds[0].get("name") != "aux":
+                return _v("declared-descriptor", f"{label}: declare_stream(name='aux') emitted {names}", f"declare|{shape}"), facts
         elif part == "declare":
             ds = [doc for n, doc in mydocs if n == "descriptor"]
             if len(ds) != 1 or ds[0].get("name") != STREAM or set(ds[0].get("data_keys", {})) != set(want_keys):
